@@ -369,6 +369,7 @@ pub fn write_replay_full(plan: &Plan, v: &Violation, profile: &str, note: &str, 
 pub struct Reported {
     pub new_violations: usize,
     pub known_seen: Vec<String>,
+    #[allow(dead_code)]
     pub replays: Vec<String>,
 }
 
